@@ -564,6 +564,26 @@ func runC11(c *core.Ctx) {
 			}
 		}
 	}
+	// a BodyLength that points at another "10=" than the CheckSum field: the tail of a tag (110=, 210=, 5010=) or
+	// the inside of a value
+	{
+		fields := []fixscan.Field{{Tag: 8, Value: "FIXT.1.1"}, {Tag: 35, Value: "D"}, {Tag: 49, Value: "A"}, {Tag: 56, Value: "B"}, {Tag: 11, Value: "ID"},
+			{Tag: 110, Value: "5"}, {Tag: 58, Value: "x10=y"}, {Tag: 210, Value: "7"}, {Tag: 5010, Value: "z"}, {Tag: 55, Value: "S"}}
+		raw := fixscan.Build(fields)
+		i9 := bytes.Index(raw, []byte("\x019=")) + 1
+		e9 := i9 + bytes.IndexByte(raw[i9:], 1)
+		bodyStart := e9 + 1
+		realTrailer := bytes.LastIndex(raw, []byte("\x0110=")) + 1
+		for off := bodyStart; off < realTrailer; off++ {
+			if bytes.HasPrefix(raw[off:], []byte("10=")) {
+				v := strconv.Itoa(off - bodyStart)
+				r := append(append(append([]byte{}, raw[:i9+2]...), v...), raw[e9:]...)
+				for cfg := 0; cfg < 4; cfg++ {
+					jobs <- c11Case{Msg: hex.EncodeToString(r), Config: cfg, Expect: "error", Note: "bodylength:points at another 10= (" + v + ")"}
+				}
+			}
+		}
+	}
 	close(jobs)
 	wg.Wait()
 	c.AddEval(evals)
